@@ -41,7 +41,7 @@ WITNESS_CAP = {'quick': 25, 'thorough': 50}
 LOOP_BOUND = 16
 
 OPS = ['save_clusters', 'save_original', 'meta_int_a', 'meta_int_b', 'meta_str', 'meta_real', 'foreign_tsv', 'foreign_csv',
-       'malformed', 'subset', 'foreign_collide', 'reload']
+       'malformed', 'subset', 'foreign_collide', 'meta_clear', 'reload']
 MALFORMED = ['', 'cluster_id\tbad\n', 'cluster_id\tbad\n1\n2\tx\ty\n', 'foo\tbar\n1\t2\n']
 
 
@@ -73,6 +73,8 @@ class Ref(object):
         self.sc = list(ds.sc)
         self.meta = {}
         self.saved = set()
+        self.cleared = set()
+        self.collide = False
         self.store = False
 
 
@@ -95,6 +97,7 @@ def apply_op(op, i, e, m, ds, ref, d, vals, real=False):
         m.save_metadata('quality', mp)
         ref.meta['quality'] = dict(mp)
         ref.saved.add('quality')
+        ref.cleared.discard('quality')
     elif op == 'meta_str':
         mp = {vals['k0']: 'good', vals['k1']: None, 5: 'mua, maybe'}
         m.save_metadata('note', mp)
@@ -121,9 +124,20 @@ def apply_op(op, i, e, m, ds, ref, d, vals, real=False):
         # a legacy table of another tool carrying columns named like fields that are (or will be) saved:
         # the saved mapping is what a reload must show, whatever the file names are
         write_text(d, 'legacy_labels.csv', 'cluster_id,quality,score\n0,7,1.5\n', real)
+        ref.collide = True
         for f, mp in (('quality', {0: 7}), ('score', {0: 1.5})):
-            if f not in ref.saved:
+            if f not in ref.saved or f in ref.cleared:
                 ref.meta[f] = mp
+    elif op == 'meta_clear':
+        # the field saved with nothing in it (empty mapping, or only None entries): the earlier mapping is gone
+        mp = {} if i % 2 == 0 else {vals['k0']: None}
+        m.save_metadata('quality', mp)
+        ref.saved.add('quality')
+        ref.cleared.add('quality')
+        if ref.collide:
+            ref.meta['quality'] = {0: 7}      # what the legacy table of another tool says (a cleared field saves no row)
+        else:
+            ref.meta.pop('quality', None)
     elif op == 'malformed':
         write_text(d, 'cluster_bad%d.tsv' % vals['which'], MALFORMED[vals['which']], real)
         if vals['which'] == 2:
